@@ -162,9 +162,15 @@ func RaceWorkload(reps int) {
 // runRaceBinary builds (cached) and runs the -race binary; returns reports found.
 func runRaceBinary(reps int) (reports int, work map[string]any, err error) {
 	root := fw.VerifRoot()
-	bin := filepath.Join(root, "bin", "vcheck-race")
+	// the harness sources live next to the running binary (<dir>/bin/vcheck, <dir>/harness)
+	exe, eerr := os.Executable()
+	if eerr != nil {
+		return 0, nil, eerr
+	}
+	base := filepath.Dir(filepath.Dir(exe))
+	bin := filepath.Join(base, "bin", "vcheck-race")
 	build := exec.Command("go", "build", "-race", "-tags", "verif", "-o", bin, "./cmd/vcheck")
-	build.Dir = filepath.Join(root, "harness")
+	build.Dir = filepath.Join(base, "harness")
 	build.Env = append(os.Environ(), "GOFLAGS=-mod=mod", "GOPROXY=off", "GOSUMDB=off", "GOTOOLCHAIN=local", "CGO_ENABLED=1")
 	if out, e := build.CombinedOutput(); e != nil {
 		return 0, nil, fmt.Errorf("building the race binary: %v: %s", e, trunc(string(out), 300))
